@@ -117,7 +117,11 @@ Definition check_pure (i : input) (changed : bool) : N := if changed then 3%N el
 (* C12: user function IDF (identity) with any qualifier; joins compared as multisets *)
 Definition c12_call (qual name : string) (args : list value) (cur : row) : res raw :=
   if String.eqb name "idf" || String.eqb name "slowf" then
-    match args with [x] => Ok (RVal x) | _ => Err end
+    match args with
+    | [x] => if String.eqb qual "spin" || String.eqb qual "spinasync" then Ok ROmit   (* effect only: no column *)
+             else Ok (RVal x)
+    | _ => Err
+    end
   else OutOfModel.
 
 (* sequential joins emit their rows in a deterministic order (left catalog order), which the model
